@@ -157,6 +157,27 @@ Proof.
   intro k. rewrite C. apply p2_done_first; auto.
 Qed.
 
+Lemma run_asubscribe second s' r w :
+  f_call f = ASubscribe -> f_phase f = PhGranted ->
+  run_body veq heq vdefault true s id ASubscribe second = (s', r, w) ->
+  Inv s' /\ Ref sv s' ASubscribe r.
+Proof.
+  intros Ec Hp H. pose proof frame_pinv as HI. pose proof frame_owners as Hown.
+  unfold run_body in H. unfold step in H. rewrite Hown in H. cbn [Nat.eqb mark_notified] in H.
+  match type of H with context [release_permits ?a ?b] => destruct (release_permits a b) as [s3 granted] eqn:E end.
+  inversion H; subst; clear H.
+  apply finish_plain in E; auto.
+  2:{ apply pinv_subs_app; auto. }
+  2:{ unfold held_fut. rewrite Hp, Ec. reflexivity. }
+  destruct E as (A & B & C). split; auto.
+  unfold Ref. cbn [sync_op conv]. rewrite <- Eo. pose proof HInv as [HIv _]. apply abs_subscribe.
+  - rewrite Eo. auto.
+  - rewrite B, Eo. reflexivity.
+  - intro k. rewrite C. apply p2_done_first; auto.
+  - destruct (in_p2 (a_futs sv) (length (subs (a_obs sv)))) eqn:E2; auto.
+    apply (in_p2_bound _ _ _ _ _ _ HIv) in E2. lia.
+Qed.
+
 Lemma run_anextnow k second s' r w :
   f_call f = ANextNow k -> f_phase f = PhGranted ->
   run_body veq heq vdefault true s id (ANextNow k) second = (s', r, w) ->
@@ -507,6 +528,7 @@ Proof.
   - destruct second; [specialize (H2 eq_refl); discriminate|]. eapply run_aset; eauto.
   - destruct second; [specialize (H2 eq_refl); discriminate|]. eapply run_aupd; eauto.
   - destruct second; [specialize (H2 eq_refl); discriminate|]. eapply run_aget; eauto.
+  - destruct second; [specialize (H2 eq_refl); discriminate|]. eapply run_asubscribe; eauto.
   - destruct second; [specialize (H2 eq_refl); discriminate|]. eapply run_awrite; eauto.
   - destruct second; [specialize (H2 eq_refl); discriminate|]. eapply run_aread; eauto.
   - destruct second; [specialize (H2 eq_refl); discriminate|]. eapply run_anextnow; eauto.
